@@ -132,7 +132,7 @@ func (p *Path) end(kind, format string, a ...interface{}) {
 }
 
 func (p *Path) unsupported(format string, a ...interface{}) {
-	panic(&pathEnd{"unsupported", fmt.Sprintf(format, a...)})
+	panic(&pathEnd{"unsupported", fmt.Sprintf(format, a...) + " at " + p.where()})
 }
 
 func (p *Path) gopanic(msg string) {
@@ -447,6 +447,8 @@ func (p *Path) zero(t types.Type) Value {
 			return &OpaqueV{Name: "float0", T: t}
 		case u.Kind() == types.UntypedNil:
 			return &Ptr{}
+		case u.Kind() == types.Invalid:
+			return nil // unused component of a range tuple (blank key or value)
 		}
 	case *types.Pointer:
 		return &Ptr{}
